@@ -17,8 +17,12 @@ pub fn workload(ctx: &Ctx, which: Which, base: u64, per_shard: usize, runs: usiz
             let style = if rng.chance(0.8) { Style::plain() } else { Style::random(&mut rng) };
             let mut c = make_case(&mut rng, &prof, None, Some(&style));
             if k % 4 == 3 && which == Which::C01 {
-                // directed family: stack slots carried around nested loops
-                let s = crate::shapes::slot_loop_family(&mut rng);
+                // directed families: stack slots carried around nested loops, CSR traffic, functions that loop to their own entry
+                let s = match rng.below(4) {
+                    0 | 1 => crate::shapes::slot_loop_family(&mut rng),
+                    2 => crate::shapes::csr_family(&mut rng),
+                    _ => crate::shapes::self_loop_family(&mut rng),
+                };
                 acc.note("shapes", s.name);
                 c.g.prog = s.prog;
                 c.g.base = c.g.prog.clone();
